@@ -446,7 +446,7 @@ func c16MigrateCoverage(c *Ctx) {
 // a list stored as it is reads back, after a round trip, as paths under the workspace root instead of the module.
 func c16PathsRerooted(c *Ctx) {
 	const rule = "WRITE-PATHS-REROOTED"
-	c.Rule(rule, "module-relative path lists are joined onto the module directory when a workspace buf.yaml is written", 4)
+	c.Rule(rule, "module-relative path lists are joined onto the module directory when a workspace buf.yaml is written", 2)
 	p := c.P
 	pk := p.Pkg("private/bufpkg/bufconfig")
 	if pk == nil {
@@ -543,6 +543,9 @@ func c16PathsRerooted(c *Ctx) {
 					if isDirectJoin(x) {
 						joined = true
 					}
+					if id, ok := ast.Unparen(x.Fun).(*ast.Ident); ok && (id.Name == "len" || id.Name == "cap") {
+						return false // only the size is used
+					}
 					if isPathsCall(x) {
 						if _, isMap := info.TypeOf(x).Underlying().(*types.Map); !isMap {
 							src = true
@@ -560,12 +563,22 @@ func c16PathsRerooted(c *Ctx) {
 				return true
 			}
 			for i, l := range as.Lhs {
+				// the target: a field of an external struct, or (when the block was moved into a helper) a local or
+				// named result that carries the list out of the function
 				root := ast.Unparen(l)
 				if ix, ok := root.(*ast.IndexExpr); ok {
 					root = ast.Unparen(ix.X)
 				}
-				sel, ok := root.(*ast.SelectorExpr)
-				if !ok || !strings.HasPrefix(namedName(info.TypeOf(sel.X)), "external") {
+				name := ""
+				switch t := root.(type) {
+				case *ast.SelectorExpr:
+					if !strings.HasPrefix(namedName(info.TypeOf(t.X)), "external") {
+						continue
+					}
+					name = t.Sel.Name
+				case *ast.Ident:
+					name = t.Name
+				default:
 					continue
 				}
 				src, joined := mentions(as.Rhs[i])
@@ -573,7 +586,7 @@ func c16PathsRerooted(c *Ctx) {
 					continue
 				}
 				k++
-				c.Ob(rule, fr.Decl.Name.Name+"/"+sel.Sel.Name, as.Pos(), joined, true, "%s is written from a module-relative path list through the joining closure: %v", exprString(l), joined)
+				c.Ob(rule, fr.Decl.Name.Name+"/"+name, as.Pos(), joined, true, "%s is written from a module-relative path list through the joining closure: %v", exprString(l), joined)
 			}
 			return true
 		})
